@@ -13,6 +13,7 @@
 //!   `r:<hex>:<dr>:<dc>`    raw formula text (impl vs model only)
 //!   `F:<layout seed, 0 = plain>:<item>|<item>|…`  item = `M,r,c,si,sr,sc,er,ec,<toks>` master |
 //!        `C,r,c,si` member | `P,r,c,<toks>` plain formula | `V,r,c` value only |
+//!        `A,r,c,kind,sr,sc,er,ec,<toks>` array / data-table formula (ref, not shared) |
 //!        `X,r,c` shared without si (error) | `W,r,c,si,<hex ref>,<toks>` master with a raw `ref` text
 use calamine::{Reader, Xlsx};
 use std::collections::BTreeMap;
@@ -498,6 +499,9 @@ enum Item {
     Plain { r: u32, c: u32, toks: Vec<Tok> },
     Value { r: u32, c: u32 },
     NoSi { r: u32, c: u32 },
+    /// a formula that carries a `ref` without being shared: kind 0 `t="array" ref`, 1 `t="array" ref si="0"`,
+    /// 2 `t="dataTable" ref dt2D r1 r2`, 3 the same with `si="0"`; it reports its own text and concerns no group
+    Array { r: u32, c: u32, kind: u8, rect: (u32, u32, u32, u32), toks: Vec<Tok> },
 }
 
 fn a1(r: u32, c: u32) -> String {
@@ -507,7 +511,7 @@ fn a1(r: u32, c: u32) -> String {
 impl Item {
     fn pos(&self) -> (u32, u32) {
         match self {
-            Item::Master { r, c, .. } | Item::MasterRaw { r, c, .. } | Item::Child { r, c, .. } | Item::Plain { r, c, .. } | Item::Value { r, c } | Item::NoSi { r, c } => (*r, *c),
+            Item::Master { r, c, .. } | Item::MasterRaw { r, c, .. } | Item::Child { r, c, .. } | Item::Plain { r, c, .. } | Item::Value { r, c } | Item::NoSi { r, c } | Item::Array { r, c, .. } => (*r, *c),
         }
     }
     fn wire(&self) -> String {
@@ -518,12 +522,13 @@ impl Item {
             Item::Plain { r, c, toks } => format!("P,{r},{c},{}", wire(toks)),
             Item::Value { r, c } => format!("V,{r},{c}"),
             Item::NoSi { r, c } => format!("X,{r},{c}"),
+            Item::Array { r, c, kind, rect, toks } => format!("A,{r},{c},{kind},{},{},{},{},{}", rect.0, rect.1, rect.2, rect.3, wire(toks)),
         }
     }
     fn parse(s: &str) -> Item {
         let kind = &s[..1];
         let n = match kind {
-            "M" => 9,
+            "M" | "A" => 9,
             "W" => 6,
             "P" => 4,
             _ => 9,
@@ -537,6 +542,7 @@ impl Item {
             "P" => Item::Plain { r: u(1), c: u(2), toks: parse_toks(p[3]) },
             "V" => Item::Value { r: u(1), c: u(2) },
             "X" => Item::NoSi { r: u(1), c: u(2) },
+            "A" => Item::Array { r: u(1), c: u(2), kind: u(3) as u8, rect: (u(4), u(5), u(6), u(7)), toks: parse_toks(p[8]) },
             x => panic!("bad item {x}"),
         }
     }
@@ -552,6 +558,7 @@ impl Item {
             Item::Plain { r, c, toks } => format!("{r},{c},P,{}", hex(render(toks).as_bytes())),
             Item::Value { r, c } => format!("{r},{c},N"),
             Item::NoSi { r, c } => format!("{r},{c},X,-"),
+            Item::Array { r, c, toks, .. } => format!("{r},{c},P,{}", hex(render(toks).as_bytes())),
         }
     }
 }
@@ -582,7 +589,7 @@ fn build_file(items: &[Item], lay: Lay) -> (Vec<u8>, Option<String>) {
             Item::Child { si, .. } => XCell { formula: Some(XFormula { text: String::new(), shared: Some((*si, None)) }), ..val },
             Item::Plain { toks, .. } => XCell { formula: Some(XFormula { text: render(toks), shared: None }), ..val },
             Item::Value { .. } => val,
-            Item::NoSi { .. } => val, // written through raw XML below
+            Item::NoSi { .. } | Item::Array { .. } => val, // written by hand below
         };
         sh.set(r, c, cell);
     }
@@ -590,7 +597,7 @@ fn build_file(items: &[Item], lay: Lay) -> (Vec<u8>, Option<String>) {
     for m in lay.merges(items) {
         sh.merges.push(((m.0, m.1), (m.2, m.3)));
     }
-    if stream || lay.zeros || items.iter().any(|i| matches!(i, Item::NoSi { .. })) {
+    if stream || lay.zeros || items.iter().any(|i| matches!(i, Item::NoSi { .. } | Item::Array { .. })) {
         // written by hand, as events: `<f t="shared"/>` without `si` cannot be expressed by the writer, and in
         // stream mode the cells are written in the order of `items`: consecutive cells of one row form one `<row r>`
         // element, so a row may come in several fragments and rows in any order (every cell carries its `r`)
@@ -634,6 +641,20 @@ fn build_file(items: &[Item], lay: Lay) -> (Vec<u8>, Option<String>) {
                 Item::Value { .. } => {}
                 Item::NoSi { .. } => {
                     evs.push(start("f", &[("t", "shared")]));
+                    evs.push(end("f"));
+                }
+                Item::Array { kind, rect, toks, .. } => {
+                    let rt = rect_text(*rect);
+                    let attrs: Vec<(&str, &str)> = match kind {
+                        0 => vec![("t", "array"), ("ref", &rt)],
+                        1 => vec![("t", "array"), ("ref", &rt), ("si", "0")],
+                        2 => vec![("t", "dataTable"), ("ref", &rt), ("dt2D", "1"), ("dtr", "1"), ("r1", "A1"), ("r2", "A2")],
+                        _ => vec![("t", "dataTable"), ("ref", &rt), ("dt2D", "1"), ("dtr", "1"), ("r1", "A1"), ("r2", "A2"), ("si", "0")],
+                    };
+                    evs.push(start("f", &attrs));
+                    if !toks.is_empty() {
+                        evs.push(text(&render(toks)));
+                    }
                     evs.push(end("f"));
                 }
             }
@@ -922,7 +943,7 @@ fn oracle_file(items: &[Item], stream: bool, drv: &mut Driver) -> Option<Cells> 
                 }
                 out.push(((*r, *c), render(&shift(toks, dr, dc))));
             }
-            Item::Plain { r, c, toks } => out.push(((*r, *c), render(toks))),
+            Item::Plain { r, c, toks } | Item::Array { r, c, toks, .. } => out.push(((*r, *c), render(toks))),
             Item::Value { .. } => {}
             Item::MasterRaw { .. } | Item::NoSi { .. } => return None,
         }
@@ -1201,6 +1222,28 @@ fn gen_file(rng: &mut Rng) -> Vec<Item> {
             items.push(Item::Plain { r: p.0, c: p.1, toks: t });
         } else {
             items.push(Item::Value { r: p.0, c: p.1 });
+        }
+    }
+    // array / data-table formulas (a `ref` without `t="shared"`) stored between a master and its members
+    if rng.chance(1, 3) {
+        let masters: Vec<(u32, (u32, u32))> = items.iter().filter_map(|i| if let Item::Master { r, c, si, .. } = i { Some((*si, (*r, *c))) } else { None }).collect();
+        for _ in 0..rng.range(1, 2) {
+            let Some(&(si, m)) = masters.get(rng.below(masters.len().max(1) as u64) as usize) else { break };
+            let last = items.iter().filter_map(|i| if let Item::Child { r, c, si: s } = i { if *s == si { Some((*r, *c)) } else { None } } else { None }).max();
+            let Some(last) = last else { continue };
+            if last <= m {
+                continue; // (two groups may share an si: the members found may belong to the other one)
+            }
+            for _ in 0..30 {
+                let p = (rng.range(m.0 as u64, last.0 as u64) as u32, base_c + rng.below(16) as u32);
+                if p > m && p < last && !taken.contains(&p) {
+                    taken.insert(p);
+                    let kind = rng.below(4) as u8;
+                    let toks = if kind >= 2 && rng.chance(1, 2) { vec![] } else { gen_formula(rng, Room { dr_min: 0, dr_max: 0, dc_min: 0, dc_max: 0 }) };
+                    items.push(Item::Array { r: p.0, c: p.1, kind, rect: (p.0, p.1, p.0 + rng.below(3) as u32, p.1 + rng.below(2) as u32), toks });
+                    break;
+                }
+            }
         }
     }
     items.sort_by_key(|i| i.pos());
@@ -1579,6 +1622,25 @@ fn corpus_files() -> Vec<(Lay, Vec<Item>)> {
             Item::Child { r: 1, c: 3, si: 0 },
             Item::Child { r: 2, c: 3, si: 0 },
         ]),
+        // seeded change C15-m17: an array formula / a data table (a `ref` without t="shared") stored between the master of
+        // group 0 and its members must not touch the group
+        (Lay::plain(), vec![
+            Item::Master { r: 0, c: 1, si: 0, rect: (0, 1, 3, 1), toks: a1p1() },
+            Item::Child { r: 1, c: 1, si: 0 },
+            Item::Array { r: 1, c: 3, kind: 0, rect: (1, 3, 2, 4), toks: vec![Tok::Ident("TRANSPOSE".into()), Tok::Punct('('), rf(false, 5, false, 0), Tok::Punct(':'), rf(false, 6, false, 1), Tok::Punct(')')] },
+            Item::Child { r: 2, c: 1, si: 0 },
+            Item::Array { r: 2, c: 5, kind: 2, rect: (2, 5, 3, 6), toks: vec![] },
+            Item::Child { r: 3, c: 1, si: 0 },
+        ]),
+        (Lay::plain(), vec![
+            Item::Master { r: 0, c: 0, si: 1, rect: (0, 0, 0, 2), toks: a1p1() },
+            Item::Array { r: 0, c: 1, kind: 1, rect: (0, 1, 0, 1), toks: a1p1() },
+            Item::Child { r: 0, c: 2, si: 1 },
+            Item::Master { r: 1, c: 0, si: 0, rect: (1, 0, 2, 1), toks: a1p1() },
+            Item::Array { r: 1, c: 4, kind: 3, rect: (1, 4, 2, 5), toks: a1p1() },
+            Item::Child { r: 1, c: 1, si: 0 },
+            Item::Child { r: 2, c: 0, si: 0 },
+        ]),
     ]
 }
 
@@ -1611,7 +1673,8 @@ fn main() {
          occasionally huge (up to 2^32-1; such files are read in a child process with a 15 s limit) or at/around powers of two \
          (15..65536 +-1), plus sheets with 1030-2100 two-cell groups numbered in sequence or shuffled; sheets whose rows come in two fragments or out of \
          order (every member still after its master in the stream), an si declared twice (the last declaration before a member counts), \
-         masters up to 8192 characters with 1- to 4-byte characters; one index written in different legal forms inside a group (leading zeros), \
+         masters up to 8192 characters with 1- to 4-byte characters; one index written in different legal forms inside a group (leading zeros), array and data-table \
+         formulas (a ref without t=shared, with and without si) stored between a master and its members, \
          declared ranges also written as merged regions; half of the files are read after load_merged_regions() / load_tables() and half after \
          with_header_row(Row(n)) (n above / inside / below the data: worksheet_formula must not depend on it), \
          cells of the range that are not members and cells outside carry values / own formulas / nothing; read with Xlsx::new + \
@@ -1846,6 +1909,9 @@ fn file_case(items: &[Item], lay: Lay, class: &str, drv: &mut Driver, rep: &mut 
     rep.count(if out.from_events { "file.model_on_xml_events" } else { "file.model_on_cell_list" });
     rep.add("file.members", members as u64);
     for it in items {
+        if let Item::Array { kind, .. } = it {
+            rep.count(if *kind < 2 { "file.array_formula" } else { "file.data_table_formula" });
+        }
         if let Item::Master { r, c, rect, .. } = it {
             rep.count(match (rect.0 != rect.2, rect.1 != rect.3) {
                 (true, true) => "group.block",
